@@ -1,4 +1,4 @@
-From GD Require Import C05.Recurse C05.SieRead C05.LzmaWindow Gen.Limits.
+From GD Require Import C05.Recurse C05.SieRead C05.LzmaWindow C05.BzipWindow Gen.Limits.
 Require Import ExtrOcamlBasic.
 Extraction Language OCaml.
-Extraction "model.ml" sie_get eval_top get_top gd_max_recurse_level lzma_seek lzma_read full_orc fresh cursor.
+Extraction "model.ml" sie_get eval_top get_top gd_max_recurse_level lzma_seek lzma_read full_orc fresh cursor bz_read bz_seek bz_size bz_script_orc bz_full_orc bfresh bcursor bz_write bz_wseek.
